@@ -88,7 +88,7 @@ Record sctx := mkCtx {
   x_consumer : Z; x_state : Z; x_thr : Z; x_nprov : Z; x_timeout : Z; x_freq : Z;
   x_bc : Z;      (* batch counter *)
   x_bthr : Z;    (* response threshold snapshot of the current batch *)
-  x_open : bool  (* batch state = BATCH_RUNNING *)
+  x_open : bool  (* batch state = BATCH_RUNNING: the current batch has not been completed yet *)
 }.
 
 Definition ctx_with_state (x : sctx) (st : Z) : sctx :=
@@ -228,7 +228,7 @@ Definition do_create (s : state) (a : create_args) : outcome * state :=
   if negb (create_ctx_ok a) then (Rej, s) else
   let c := next_ctx s in
   let freq := if c_freq a =? 0 then c_timeout a else c_freq a in
-  let x := mkCtx (c_sender a) PAUSED (c_thr a) (c_nprov a) (c_timeout a) freq 0 (c_thr a) in
+  let x := mkCtx (c_sender a) PAUSED (c_thr a) (c_nprov a) (c_timeout a) freq 0 (c_thr a) false in
   let s1 := mkState (feeds s) (byctx s) (vals s) (idx_run s) (idx_pau s) (set c x (ctxs s)) (c + 1) in
   let s2 := set_feed s1 (c_name a) (mkFeed (c_agg a) (c_path a) (c_lh a) c (c_sender a)) in
   (Ok, enqueue s2 (c_name a) PAUSED).
@@ -247,7 +247,7 @@ Definition do_start (s : state) (name sender : Z) : outcome * state :=
           (* service StartRequestContext: authority, then state must be PAUSED *)
           if negb (sender =? x_consumer x) then (Rej, s) else
           if negb (x_state x =? PAUSED) then (Rej, s) else
-          let x' := mkCtx (x_consumer x) RUNNING (x_thr x) (x_nprov x) (x_timeout x) (x_freq x) (x_bc x) (x_bthr x) in
+          let x' := ctx_with_state x RUNNING in
           (Ok, dequeue_enqueue (set_ctx s (f_ctx f) x') name PAUSED RUNNING)
       end
   end.
@@ -264,7 +264,7 @@ Definition do_pause (s : state) (name sender : Z) : outcome * state :=
       | Some x =>
           if negb (x_state x =? RUNNING) then (Rej, s) else
           if negb (sender =? x_consumer x) then (Rej, s) else
-          let x' := mkCtx (x_consumer x) PAUSED (x_thr x) (x_nprov x) (x_timeout x) (x_freq x) (x_bc x) (x_bthr x) in
+          let x' := ctx_with_state x PAUSED in
           (Ok, dequeue_enqueue (set_ctx s (f_ctx f) x') name RUNNING PAUSED)
       end
   end.
@@ -292,7 +292,7 @@ Definition update_ctx (x : sctx) (a : edit_args) : option sctx :=
   if freq <? uint64_of timeout then None else
   Some (mkCtx (x_consumer x) (x_state x) (if 0 <? thr then thr else x_thr x) np
               (if 0 <? timeout then timeout else x_timeout x)
-              (if 0 <? freq then freq else x_freq x) (x_bc x) (x_bthr x)).
+              (if 0 <? freq then freq else x_freq x) (x_bc x) (x_bthr x) (x_open x)).
 
 (** keeper.EditFeed *)
 Definition do_edit (s : state) (a : edit_args) : outcome * state :=
@@ -354,20 +354,32 @@ Definition handler_state_changed (s : state) (c : Z) : state :=
       end
   end.
 
+Definition close_batch (s : state) (c : Z) : state :=
+  match get c (ctxs s) with
+  | Some x => set_ctx s c (ctx_with_open x false)
+  | None => s
+  end.
+
 Definition do_sev (s : state) (now : Z) (e : sev) : outcome * state :=
   match e with
   | SNewBatch c =>
       match get c (ctxs s) with
       | None => (Ok, s)
       | Some x => (Ok, set_ctx s c (mkCtx (x_consumer x) (x_state x) (x_thr x) (x_nprov x) (x_timeout x) (x_freq x)
-                                          (x_bc x + 1) (x_thr x)))
+                                          (x_bc x + 1) (x_thr x) true))
       end
-  | SDone c _ _ outs _ => handler_response s now c outs
+  | SDone c _ _ outs _ =>
+      (* service CompleteBatch: Callback, then BatchState = BATCHCOMPLETED *)
+      match handler_response s now c outs with
+      | (Ok, s1) => (Ok, close_batch s1 c)
+      | r => r
+      end
   | SAutoPause c =>
       match get c (ctxs s) with
       | None => (Ok, s)
       | Some x =>
-          let s1 := set_ctx s c (mkCtx (x_consumer x) PAUSED (x_thr x) (x_nprov x) (x_timeout x) (x_freq x) (x_bc x) (x_bthr x)) in
+          (* service OnRequestContextPaused: BatchState = BATCHCOMPLETED, State = PAUSED, state callback *)
+          let s1 := set_ctx s c (ctx_with_open (ctx_with_state x PAUSED) false) in
           (Ok, handler_state_changed s1 c)
       end
   end.
